@@ -81,6 +81,8 @@ type Unit struct {
 	inlineStack  map[*ssa.Function]bool
 	oldMem       MemState
 	mayPanic     bool
+	noEscapeObjs []*Term // object ids of parameters under a noescape clause
+	explicitPanicOK bool // flag explicitpanic: panic(...) statements (internal consistency checks) are not obligations
 	lemmaMode    bool
 	roGlobals    []string
 	axioms       []*Term
@@ -868,7 +870,7 @@ func (f *Frame) execBlock(b *ssa.BasicBlock, hdr map[*ssa.BasicBlock]*loopInfo) 
 			f.rets = append(f.rets, retRec{reach: f.cur.reach, vals: vals, mem: f.cur.mem})
 			return
 		case *ssa.Panic:
-			if !f.spec {
+			if !f.spec && !f.u.explicitPanicOK {
 				f.u.addObl("nopanic:panic", f.anchorFor("panic"), f.cur.reach, tb.False(), f.pos(x.Pos()), "explicit panic reachable")
 			}
 			return
